@@ -7,6 +7,15 @@ CHECKS = {
  "C01": dict(category="model_checking", technique="explicit-state search over operation sequences on the real store (memfs), reference-map oracle",
    text="Bounded-exhaustive explicit-state model checking of the implementation itself: every history of mutating commands up to depth 4 (quick) / 5 (thorough) over a collision-forcing alphabet (2 keys in one leaf; small, one-block, two-block-compressible, incompressible, numeric, same-value, explicit-revision larger/stale, vhash-colliding values; delete; incr; flush; background work) under 3 configurations (1/16/256 buckets, heights 2-3, check_vhash on/off, data files of 2-3 records, hint splits of 2 items); in every reached state every read path (get, multi-get, ?key, ??key, memory-only) through the memcached text protocol is compared with a plain reference map. This is the right level because the property is a universally quantified equivalence with a map; the bound covers every ordering of overwrite/delete/incr/rotation/flush of two keys.",
    note="Trusts: Go toolchain, the source rewriter (sync/os/time/go redirected to shims), memfs as a model of POSIX files, the 60-line reference map. Depth and alphabet are bounds, not proofs; values come from ~10 shape classes; incr's version rule is pinned from the code.", design="4/C01"),
+ "C02": dict(category="model_checking", technique="explicit-state search over histories + exhaustive enumeration of index-file subsets at every clean shutdown (real store on memfs)",
+   text="Part (a): every history up to depth 4 (quick: 3-4) over mutators, flush, background work, hint dump, hint merge and restarts (keeping all / dropping *.hash / dropping everything); after every history the store is shut down cleanly, the process exits, and for EVERY subset of the index files present (tree dump, per-split hints, merged hint) a fresh process is opened on a copy of the directory and every key is read through every read path and compared with the reference map of acknowledged operations. Part (b) (shutdown racing the post-rotation flush / periodic flusher / hint dumper) is explored by the controlled scheduler.",
+   note="Trusts rewriter, memfs, reference map. Versions of deleted keys are not compared after a restart and versions after a tree-only bump may be the tree's or the record's, exactly as the property states. Depth/alphabet are bounds.", design="4/C02"),
+ "C03": dict(category="model_checking", technique="explicit-state search: layouts x every range the real range check resolves x merge x follow-ups, reference-map oracle (GC = identity)",
+   text="Every layout history (2 keys, 1- and 2-block values, deletes, data files of 2 records, optional tree-rebuilding restart) up to L letters, then every distinct range the real range check resolves from any (begin,end) in [-1..head+1]^2 with merge off/on, run to completion through HStore.GC; then restarts with index subsets dropped, a further write plus a second GC, or a second GC directly. The read battery is compared with the reference map after every step. Three destination kinds are reached (in-place rewrite, fresh file in a gap, append to an earlier short file then overflow).",
+   note="Quiescent passes only (overlap with traffic is C05). Bounds: L<=3-5 letters, 2 keys, two GC configurations. Trusts rewriter, memfs, reference map.", design="4/C03"),
+ "C18": dict(category="model_checking", technique="same exploration as C03 with an independent record scanner as oracle",
+   text="Same layouts, ranges and follow-ups as C03; after every completed pass an independent scanner (own decoder of the beansdb record layout, Go hash/crc32) reads every data file of the resolved range: each record must be the reference map's current record of its key, at most once; files outside the range are byte-identical except one earlier file that may only grow; an identical second pass releases nothing and changes no file.",
+   note="Quiescent, non-colliding keys. One genuine deviation is recorded as known finding F18a (superseded tombstones kept after a tree rebuild when the range does not start at file 0).", design="4/C18"),
 }
 
 NOT_APPLICABLE = []
